@@ -407,7 +407,7 @@ PROPS = {
     "C26": {
         "title": "Component iteration and injection match module-level behaviour",
         "units": ["V5_iter", "V4b_iter_inject"],
-        "obligations": ["V4b_iter_inject.ComponentIterator.*", "V4b_iter_inject.fn:ComponentIterator as *", "V4b_iter_inject.ModuleIterator.*", "V4b_iter_inject.fn:ModuleIterator as *",
+        "obligations": ["V4b_iter_inject.InstrumentationFlag.get_instr.*", "V4b_iter_inject.fn:InstrumentationFlag::get_instr", "V4b_iter_inject.ComponentIterator.*", "V4b_iter_inject.fn:ComponentIterator as *", "V4b_iter_inject.ModuleIterator.*", "V4b_iter_inject.fn:ModuleIterator as *",
                         "V5_iter.ComponentSubIterator.*", "V5_iter.fn:ComponentSubIterator::*", "V5_iter.ModuleSubIterator.*", "V5_iter.fn:ModuleSubIterator::*",
                         "V5_iter.handle_skips.*", "V5_iter.fn:next_module_with_work", "V5_iter.fn:lemma_next_live",
                         "V4b_iter_inject.fn:ComponentIterator::new", "V4b_iter_inject.get_func_metadata.*", "V4b_iter_inject.fn:Module::get_func_metadata",
